@@ -48,6 +48,9 @@ def check(repo, col, tier):
     _named(repo, col)
     _basestate(repo, col)
     keyclass_on_base(repo, col, "R-C11-keyclass")
+    col.rule("R-C11-inview", "what a view lists (channels, local edge numbers) is computed from the rows in view", 3)
+    channels_in_view(repo, col, "R-C11-inview")
+    synapse_view_local_index(repo, col, "R-C11-inview")
     col.rule("R-C11-groups", "groups hold sorted, unique row labels", 2)
     group_normal_form(repo, col)
     col.rule("R-C11-structure", "a view's structure attributes describe its own branches", 2)
@@ -918,21 +921,23 @@ def _edges(repo, col):
             self.value = _fuse(idx.inline(repo, fi, s_.value))
     st = {("n" if s.key.name == "_nodes_in_view" else "e", tuple(g.pretty() for g in s.guards)): _S(s)
           for s in ex.stores if s.kind == "attr" and s.key.name in ("_nodes_in_view", "_edges_in_view")}
-    # node-selected view
-    cand = [s for (w, g), s in st.items() if w == "e" and any("has_edge_inds" in x or "edges, None" in x for x in g) and s.value.op == "mcall"
-            and s.value.name == "intersect1d"]
+    # node-selected view: the store of the edges that is computed from the two end columns (whatever the branch is called)
+    def has_const(t_, c_):
+        return T.find(t_, lambda y: y.op == "const" and y.name == c_) is not None
+    cand = [s for (w, g), s in st.items() if w == "e" and s.value.op == "mcall" and s.value.name == "intersect1d"
+            and has_const(s.value, "pre_global_comp_index")]
     if not cand:
         raise AnalysisError("View._set_inds_in_view: edges of a node-selected view not found")
     s = cand[0]
-    a = s.value.args[1:]
-    both = T.find(s.value, lambda x: x.op == "binop" and x.name in ("&", "|", "^") and
-                  T.find(x, lambda y: y.op == "const" and y.name == "pre_global_comp_index") is not None and
-                  T.find(x, lambda y: y.op == "const" and y.name == "post_global_comp_index") is not None)
-    col.check(both is not None and both.name == "&", R, fi, "node-selected view keeps an edge iff both ends are in view",
+    AND, OTHER = {"&", "logical_and", "*", "multiply"}, {"|", "^", "logical_or", "logical_xor", "+", "add"}
+    both = T.find(s.value, lambda x: ((x.op == "binop" and x.name in AND | OTHER) or (x.op == "mcall" and x.name in AND | OTHER)) and
+                  has_const(x, "pre_global_comp_index") and has_const(x, "post_global_comp_index") and
+                  sum(1 for a_ in x.args if has_const(a_, "pre_global_comp_index") or has_const(a_, "post_global_comp_index")) >= 2)
+    col.check(both is not None and both.name in AND, R, fi, "node-selected view keeps an edge iff both ends are in view",
               "pre & post", f"the two end masks are combined with `{both.name if both else '?'}`: an edge with only one end in "
                             f"view would be shown and edited through the view", node=s.node)
     parent = any(x.op == "attr" and x.name == "_edges_in_view" and x.args[0].op == "param" and x.args[0].name == "pointer"
-                 for x in s.value.args[2].walk()) if len(s.value.args) > 2 else False
+                 for a_ in s.value.args[1:] for x in a_.walk())
     col.check(parent, R, fi, "edges are intersected with the parent view's edges", "np.intersect1d(possible, pointer._edges_in_view)",
               "edges of the parent view are not taken into account", node=s.node)
     incl = T.find(s.value, lambda x: x.op == "mcall" and x.name == "isin")
@@ -948,6 +953,60 @@ def _edges(repo, col):
             any(x.op == "attr" and x.name == "_nodes_in_view" and x.args[0].op == "param" for x in s2.value.walk())
         col.check(ok, R, fi, "edge-selected view keeps the pre and post compartments of its edges (within the parent)",
                   "both end columns, intersected with pointer._nodes_in_view", f"nodes are {s2.value.short(120)}", node=s2.node)
+
+
+def channels_in_view(repo, col, R):
+    """View._channels_in_view: a channel belongs to a view iff SOME compartment in view carries it.  `.all` (every compartment) hides a
+    channel that covers the view only partly; `view.<Channel>` then no longer restricts the view (Module.__getattr__ falls back to the
+    whole view for names that are not among the view's channels) and set() / record() through it touch rows without the channel."""
+    fi = repo.method("View", "_channels_in_view")
+    ex = idx.expander(repo, fi)
+    from sa.terms import fuse_comprehensions as _fuse
+    r = ex.merged_return() if len(ex.returns) != 1 else ex.returns[0]
+    if r is None:
+        raise AnalysisError("View._channels_in_view has no return value")
+    r = _fuse(idx.inline(repo, fi, r, value_only=True))
+    red = T.find(r, lambda x: x.op == "mcall" and x.name in ("any", "all", "sum", "max", "min", "mean", "prod") and
+                 T.find(x, lambda y: y.op == "attr" and y.name == "nodes") is not None)
+    if red is None:
+        col.unk(R, fi, "a channel is in view iff some compartment in view carries it", f"reduction over the rows in view not found in {r.short(100)}", node=fi.node)
+        return
+    own = T.find(red.args[0], lambda y: y.op == "attr" and y.name == "nodes" and y.args[0].op == "param" and y.args[0].name == "self") is not None
+    ax = red.kw.get("axis") or (red.args[1] if len(red.args) > 1 else None)
+    rows = ax is None or (ax.op == "const" and ax.name in (0, "index", "rows"))
+    verdict = "DISCHARGED" if (red.name in ("any", "max") and own and rows) else ("VIOLATED" if red.name in ("all", "min", "prod") or not own or not rows else "UNDECIDED")
+    col.add(R, fi, "a channel is in view iff some compartment in view carries it", verdict,
+            "self.nodes[names].any(axis=0)" if verdict == "DISCHARGED" else
+            f"presence is reduced with `{red.short(70)}`"
+            + (": a channel that covers the view only partly is not listed; `view.<Channel>` then selects the WHOLE view" if red.name in ("all", "min", "prod") else
+               (": not the view's own node table" if not own else ": not a reduction over the rows")), node=fi.node)
+    flt = T.find(r, lambda x: x.op == "comp" and T.find(x, lambda y: y.op == "attr" and y.name == "channels" and y.args[0].op == "param" and y.args[0].name == "pointer") is not None)
+    col.check(flt is not None, R, fi, "the view's channels are the pointer's channels that are in view", "[c for c in pointer.channels if ...]",
+              f"returns {r.short(100)}", node=fi.node)
+
+
+def synapse_view_local_index(repo, col, R):
+    """`net.<SynapseType>` hands out a view of the edges of that type; its `local_edge_index` must be the dense rank 0..n-1 WITHIN THE VIEW
+    (that is what `.edge(i)` in local scope selects by).  A rank computed over the base module's edges of that type agrees only when
+    the whole network is in view."""
+    fi = repo.method("Module", "__getattr__")
+    ex = idx.expander(repo, fi)
+    sts = [s_ for s_ in ex.stores if s_.kind == "sub" and s_.key.op == "const" and s_.key.name == "local_edge_index"]
+    if not sts:
+        raise AnalysisError("Module.__getattr__ no longer renumbers local_edge_index of a synapse-type view")
+    from sa.terms import fuse_comprehensions as _fuse
+    for s_ in sts:
+        v = _fuse(idx.inline(repo, fi, s_.value, value_only=True))
+        tbl = s_.base
+        dense = v.op == "mcall" and v.name == "arange" and len(v.args) == 2 and v.args[1].op == "call" and v.args[1].name == "len" and \
+            v.args[1].args[0].key() == tbl.key()
+        from_base = T.find(v, lambda x: (x.op == "mcall" and x.name in ("_edge_inds_within_type",)) or
+                           (x.op == "attr" and x.name == "base") or (x.op == "const" and x.name == "global_edge_index" and
+                                                                      T.find(v, lambda y: y.op == "mcall" and y.name == "rank") is None)) is not None
+        col.add(R, fi, "local edge indices of a synapse-type view are 0 .. n-1 within the view", "DISCHARGED" if dense else ("VIOLATED" if from_base else "UNDECIDED"),
+                "np.arange(len(view.edges))" if dense else
+                f"local_edge_index = `{v.short(90)}`: numbered within the base module (or by global index), not within the view; "
+                f"`net.cell([1, 2]).<Synapse>.edge(1)` then selects another synapse than the second one in view", node=s_.node)
 
 
 def _loc(repo, col):
